@@ -874,7 +874,8 @@ pub fn exec_plan(
                     st.log[last_log..].to_vec()
                 };
                 last_log += log.len();
-                let faults_in_batch = log.iter().any(|o| o.fault.is_some());
+                // (a file that cannot be deleted is part of the environment, not an injected fault)
+                let faults_in_batch = log.iter().any(|o| o.fault.is_some() && o.fault != Some("immutable_file"));
                 if faults_in_batch {
                     faulted_since_ack = true;
                 }
